@@ -599,6 +599,26 @@ func checkTransportMutexes(res *Result, p *Pub) {
 						}
 					}
 				case *ssa.Call:
+					// through sync.Locker: the interface value wraps the mutex field
+					lockerOp := func(name string) (string, bool) {
+						if x.Common().IsInvoke() && x.Common().Method.Name() == name && x.Common().Method.Pkg() != nil && x.Common().Method.Pkg().Path() == "sync" {
+							if n := fieldOf(x.Common().Value); !strings.HasPrefix(n, "?") {
+								return n, true
+							}
+						}
+						return "", false
+					}
+					if n, ok := lockerOp("Lock"); ok {
+						add(final, x, "mutex "+n+" is not locked again while it may be held", !s.may[n], "Lock while held: self-deadlock")
+						s.must[n], s.may[n] = true, true
+						continue
+					}
+					if n, ok := lockerOp("Unlock"); ok {
+						add(final, x, "mutex "+n+" is held where it is unlocked", s.must[n], "Unlock of a mutex that is not held on every path here")
+						delete(s.must, n)
+						delete(s.may, n)
+						continue
+					}
 					switch {
 					case staticName(x) == "(sync.Mutex).Lock":
 						n := fieldOf(x.Call.Args[0])
